@@ -7,7 +7,7 @@
    whose segment has meanwhile left the unrotated info is read from the rotated files;
    the searcher keeps processedBlocks per (segment key, block number) — modelled below as it is
    coded, batch by batch —, the stats path drops a rotated request whose key is also in the
-   unrotated snapshot — fix 08e84b8; the group-by path does neither). *)
+   unrotated snapshot — fix 08e84b8; the group-by path skips the second request of a segment key). *)
 From SigM Require Import Base.
 Open Scope nat_scope.
 
@@ -102,6 +102,7 @@ Section WithUniverse.
   Variable nseg : nat.                      (* segment ids 0 .. nseg-1 *)
   Variable stats_dedup : bool.              (* false = the statistics path before fix 08e84b8 *)
   Variable dedup_in_batch : bool.           (* false = getFilteredBlocks recording the batch after its loop *)
+  Variable groupby_protected : bool.        (* false = the group-by route before its repair *)
   Variable batching grouping : list blk -> list (list blk).
 
   Definition blocks_of (f : nat -> seg) (s : nat) : list (nat * nat) := map (pair s) (seq 0 (nb (f s))).
@@ -126,12 +127,23 @@ Section WithUniverse.
     flat_map (blocks_of f) su ++
     flat_map (blocks_of f) (if stats_dedup then filter (fun s => negb (mem s su)) sr else sr).
 
-  (* group-by statistics as a first command (applyFopAllRequests): an unrotated request is read from the
-     unrotated info as it is AT THAT MOMENT (a segment that has left it yields nothing, there is no
-     re-test as in GetSSRsFromQSR / applyAggOpOnSegments), a rotated request is always read, and a
-     segment that is in both snapshots is not de-duplicated *)
+  (* group-by statistics as a first command (applyFopAllRequests walks the requests one by one).
+     As repaired: the first request of a segment key is read where the segment is AT THAT MOMENT (an
+     unrotated request re-tests IsSegKeyUnrotated and falls back to the rotated copy, as GetSSRsFromQSR /
+     applyAggOpOnSegments do), every further request of the same key is skipped (searchedSegKeys).
+     (The requests are sorted by time before they are walked; which keys are searched does not depend
+     on the order.)
+     Before the repair (groupby_protected = false): an unrotated request was looked up in the unrotated
+     info without re-test (a segment that had left it yielded nothing), a rotated request was always
+     read, and a segment in both snapshots was not de-duplicated. *)
+  Fixpoint keys_once (seen l : list nat) : list nat :=
+    match l with
+    | [] => []
+    | s :: r => if mem s seen then keys_once seen r else s :: keys_once (s :: seen) r
+    end.
   Definition resolve_groupby (f : nat -> seg) (su sr : list nat) : list (nat * nat) :=
-    flat_map (blocks_of f) (filter (fun s => in_unrot (f s)) su) ++ flat_map (blocks_of f) sr.
+    if groupby_protected then flat_map (blocks_of f) (keys_once [] (su ++ sr))
+    else flat_map (blocks_of f) (filter (fun s => in_unrot (f s)) su) ++ flat_map (blocks_of f) sr.
 
   Variable kind_of : nat -> qkind.          (* which route reader r takes *)
   Definition resolve_kind (k : qkind) :=
